@@ -499,6 +499,7 @@ struct Run{
     // another solver of another dimension on the same simulated thread (the interpolation scratch is thread local and sized by its first user)
     begin("second_solver",prop=="C05"?"C05":"C15");
     unsigned d2=2+(unsigned)(o["d"].as_int(0)%5); if(d2==nsun) d2=2+(d2-2+1)%5;
+    if(o["same_dim"].as_bool(false)) d2=nsun;      // or of the same dimension with another layout: whatever the scratch remembers of one solver must not leak into the other's answers
     struct Mini: public squids::SQuIDS{
       double w[6];
       squids::SU_vector H0(double x,unsigned) const{ squids::SU_vector h(nsun); Mat m(nsun); for(unsigned k=0;k<nsun;k++) m.m[k][k]=w[k]*x; std::vector<double> cc=to_components(m); for(unsigned k=0;k<nsun*nsun;k++) h[k]=cc[k]; return h; }
@@ -677,7 +678,7 @@ struct SolverEngine: Engine{
         if(k==0){ double dt=dtgen()*(r.chance(0.2)?50:1); if(mask) dt=std::min(dt,1.0); ops.push(gen_stepper(r,dt,L)); evolve(dt); }
         else if(k==1) ops.push(gen_expect(r,true));
         else if(k==2){ Json o=Json::object(); o["op"]="reini"; o["cfg"]=gen_cfg(r,true); o["same"]=r.chance(0.4); ops.push(o); }
-        else if(k==3){ Json o=Json::object(); o["op"]="second_solver"; o["d"]=(int)r.below(5); o["avg"]=r.chance(0.3); o["vs"]=(long long)r.below(100000); ops.push(o); }
+        else if(k==3){ Json o=Json::object(); o["op"]="second_solver"; o["same_dim"]=r.chance(0.35); o["d"]=(int)r.below(5); o["avg"]=r.chance(0.3); o["vs"]=(long long)r.below(100000); ops.push(o); }
         else{ Json o=Json::object(); o["op"]=r.chance(0.5)?"move_ctor":"move_assign"; o["fresh"]=r.chance(0.5); o["evolve_target"]=r.chance(0.3); o["reini_old"]=r.chance(0.3); o["reini_same"]=r.chance(0.5); o["n"]=(int)r.below(3); o["d"]=(int)r.below(5); o["s"]=(int)r.below(2); ops.push(o); }
       }
     }else{ // C10 and C15: sequences
@@ -694,7 +695,7 @@ struct SolverEngine: Engine{
         else if(k==3||k==4){ Json o=Json::object(); o["op"]=k==3?"move_ctor":"move_assign"; o["fresh"]=r.chance(0.5); o["evolve_target"]=r.chance(0.35); o["reini_old"]=r.chance(0.4); o["reini_same"]=r.chance(0.5); o["n"]=(int)r.below(3); o["d"]=(int)r.below(5); o["s"]=(int)r.below(2); ops.push(o); }
         else if(k==5){ Json o=Json::object(); o["op"]="reini"; o["cfg"]=gen_cfg(r,false); o["same"]=r.chance(0.4); ops.push(o); }
         else if(k==6) ops.push(gen_expect(r,prop=="C15"));
-        else if(k==7){ Json o=Json::object(); o["op"]="second_solver"; o["d"]=(int)r.below(5); o["avg"]=r.chance(0.3); o["vs"]=(long long)r.below(100000); ops.push(o); }
+        else if(k==7){ Json o=Json::object(); o["op"]="second_solver"; o["same_dim"]=r.chance(0.35); o["d"]=(int)r.below(5); o["avg"]=r.chance(0.3); o["vs"]=(long long)r.below(100000); ops.push(o); }
         else if(k==10){ Json o=Json::object(); o["op"]="limits"; o["hmin"]=(int)r.below(4); o["hmax"]=(int)r.below(3); ops.push(o); if(r.chance(0.6)){ evolve(r.chance(0.5)?r.uniform(1e-5,5e-3):dtgen()); } }
         else if(k==11){ Json o=Json::object(); o["op"]="any_numerics"; o["on"]=r.chance(0.4); ops.push(o); evolve(dtgen()); }
         else if(k==9){ Json o=Json::object(); o["op"]="evolve_fail"; o["at"]=(int)r.below(4); o["adaptive"]=r.chance(0.6); o["vs"]=(long long)r.below(100000); ops.push(o); }
